@@ -3,6 +3,7 @@ package props
 import (
 	"encoding/json"
 	"fmt"
+	"os"
 	"reflect"
 	"regexp"
 	"sort"
@@ -689,6 +690,9 @@ func runFlatProp(c *Ctx, fp *flatProp) {
 		return !c.Expired()
 	}
 	subsets(len(singles), 1, func(idx []int) bool { return execOne(singles, idx) })
+	if fp.ID == "C04" {
+		conformLoaderSeam(c, singles)
+	}
 	subsets(len(pairs), 2, func(idx []int) bool {
 		if len(idx) < 2 {
 			return true // singles are covered by the full catalogue above
@@ -757,4 +761,41 @@ func init() {
 		fp := fp
 		register(&Check{ID: id, Run: func(c *Ctx) { runFlatProp(c, fp) }, Replay: flatReplay(fp)})
 	}
+}
+
+// conformLoaderSeam validates the in-memory loader against spec's default loader: every single-feature bundle
+// with auxiliary documents is also written to a real directory and flattened from there; results must be identical.
+func conformLoaderSeam(c *Ctx, fs []gen.Feature) {
+	var n, mism int64
+	for i := range fs {
+		if int(int64(i)%int64(c.NShards)) != c.Shard {
+			continue
+		}
+		in, ok := buildFlatInput(fs, []int{i})
+		if !ok || !in.Spec.HasAux() {
+			continue
+		}
+		if !c.Thorough() && n >= 12 {
+			break
+		}
+		for _, o := range in.optionSets(func(o h.Opts) bool { return !o.RemoveUnused }) {
+			dir, err := os.MkdirTemp("", "mc-disk-")
+			if err != nil {
+				return
+			}
+			disk, err := h.RunFlattenOnDisk(in.B, o, dir)
+			os.RemoveAll(dir)
+			if err != nil {
+				continue
+			}
+			mem := runFlat(in, o, mcrt.Asc)
+			n++
+			if disk.Class() != mem.Res.Class() || string(disk.Out) != string(mem.Res.Out) {
+				mism++
+				c.Notes = append(c.Notes, fmt.Sprintf("loader seam mismatch on %v %s: disk %s vs memory %s", in.Labels, o, disk.Class()+" "+disk.Err, mem.Res.Class()+" "+mem.Res.Err))
+			}
+		}
+	}
+	c.Count("loader_seam_conformance_runs", n)
+	c.Count("loader_seam_conformance_mismatches", mism)
 }
